@@ -198,6 +198,7 @@ def write_zip(members: dict[str, bytes], fileobj) -> None:
 
 def write_dir(members: dict[str, bytes], path: str) -> None:
     shutil.rmtree(path, ignore_errors=True)
+    os.makedirs(path, exist_ok=True)
     for n, b in members.items():
         p = os.path.join(path, n)
         os.makedirs(os.path.dirname(p), exist_ok=True)
